@@ -1110,9 +1110,10 @@ func runC17(c *Ctx) {
 				}
 				// garbage and unexpected frames on the CONTROL connection and bad heartbeat replies
 				if p != nil {
-					for _, kind := range []string{"control/garbage-event", "control/event-unknown-type", "control/response-on-unknown-stream", "control/random-bytes", "heartbeat/error-reply", "heartbeat/result-reply", "heartbeat/garbage-reply", "heartbeat/unprepared-reply-with-cached-id"} {
+					for _, kind := range []string{"control/garbage-event", "control/event-unknown-type", "control/response-on-unknown-stream", "control/random-bytes", "heartbeat/error-reply", "heartbeat/result-reply", "heartbeat/garbage-reply", "heartbeat/unprepared-reply-with-cached-id",
+						"heartbeat/unprepared-reply-with-cached-id+warning", "heartbeat/unprepared-reply-with-cached-id+tracing", "heartbeat/unprepared-reply-with-cached-id+payload"} {
 						c.Step("c17 control hostility maxv=%s %s", maxv, kind)
-						if kind == "heartbeat/unprepared-reply-with-cached-id" {
+						if strings.HasPrefix(kind, "heartbeat/unprepared-reply-with-cached-id") {
 							// the id named by the UNPREPARED answer is one the proxy has in its prepared cache
 							if pcl, err := rawcql.Dial(p.addr, primitive.ProtocolVersion4, nil); err == nil {
 								if pcl.Handshake("", 5*time.Second) == nil {
@@ -1132,10 +1133,20 @@ func runC17(c *Ctx) {
 									_ = x.WriteRaw(respFrame(hdr.Version, 0, hdr.StreamId, 0, []byte{0, 0, 0, 0, 0, 1, 'x'}), k)
 								case "heartbeat/result-reply":
 									_ = x.WriteRaw(respFrame(hdr.Version, 0, hdr.StreamId, 8, []byte{0, 0, 0, 1}), k)
-								case "heartbeat/unprepared-reply-with-cached-id":
+								case "heartbeat/unprepared-reply-with-cached-id", "heartbeat/unprepared-reply-with-cached-id+warning", "heartbeat/unprepared-reply-with-cached-id+tracing", "heartbeat/unprepared-reply-with-cached-id+payload":
+									// ... plain, and dressed the ways that make a reader decode the frame to find the error code
 									id := fakecass.PreparedID("", idemPrepared)
 									body := append([]byte{0, 0, 0x25, 0, 0, 1, 'x', 0, byte(len(id))}, id...)
-									_ = x.WriteRaw(respFrame(hdr.Version, 0, hdr.StreamId, 0, body), k)
+									flags := byte(0)
+									switch {
+									case strings.HasSuffix(k, "+warning"):
+										flags, body = 0x08, append([]byte{0, 1, 0, 1, 'w'}, body...)
+									case strings.HasSuffix(k, "+tracing"):
+										flags, body = 0x02, append(make([]byte, 16), body...)
+									case strings.HasSuffix(k, "+payload"):
+										flags, body = 0x04, append([]byte{0, 1, 0, 1, 'k', 0, 0, 0, 1, 'v'}, body...)
+									}
+									_ = x.WriteRaw(respFrame(hdr.Version, flags, hdr.StreamId, 0, body), k)
 								default:
 									_ = x.WriteRaw(respFrame(hdr.Version, 0, hdr.StreamId, 6, []byte{0xff, 0xff, 0xff}), k)
 								}
